@@ -111,6 +111,20 @@ class StatusChain:
                               f'a failure in an earlier iteration is forgotten when a later one succeeds')
             else:
                 rep.ok(key, fi.loc(d), 'accumulating' if acc is not None else 'outside any loop')
+            if acc is None and not loops and contributed is not None:
+                # the start value: with no failing graph the status must stay 0
+                okc, cv = try_fold(contributed)
+                if okc and isinstance(cv, (int, bool)) and int(cv) != 0:
+                    q, conditional = d, False
+                    while id(q) in pm and pm[id(q)] is not fi.node:
+                        q = pm[id(q)]
+                        if isinstance(q, (ast.If, ast.While, ast.ExceptHandler, ast.IfExp, ast.Match)):
+                            conditional = True
+                    if conditional:
+                        rep.add(key + ' (start value)', fi.loc(d), 'info', f'the status is set to {cv!r} under a condition (not a start value)')
+                    else:
+                        rep.violation(key + ' (start value)', fi.loc(d), f'the status starts at {cv!r} unconditionally: the tool exits non-zero although no graph '
+                                      f'in any input has an error')
             if acc is not None:
                 # accumulation needs an initial value that reaches it from outside the loop / before it
                 nd = owner_node(cfg, pm, d)
@@ -871,7 +885,18 @@ def r82(ctx: Ctx) -> RuleReport:
                     from_triple.add(n_.targets[0].id)
                     grew = True
         k6 = f'{fi.fq}: the recorded text names the offending triple and the message'
-        if first and not (used & from_triple):
+        wrong_side = None
+        if first:
+            for n_ in ast.walk(outer):
+                if isinstance(n_, ast.Assign) and isinstance(n_.targets[0], ast.Name) and n_.targets[0].id in from_triple \
+                        and any(isinstance(x, ast.Name) and x.id == first for x in ast.walk(n_.value)):
+                    fx_ = {(f.replace(' ', ''), pol) for f, pol in facts_ex(ctx, fi, n_)}
+                    if (first, False) in fx_ or (f'{first}isNone', True) in fx_ or (f'{first}isnotNone', False) in fx_ or (f'not{first}', True) in fx_:
+                        wrong_side = n_
+        if wrong_side is not None:
+            rep.violation(k6, fi.loc(wrong_side), f'`{norm(wrong_side)[:60]}` builds the text from `{first}` only on the branch where `{first}` is empty/None (the graph-level '
+                          f'entries): for a real offending triple no text names it, and for a graph-level entry the formatting fails')
+        elif first and not (used & from_triple):
             rep.violation(k6, fi.loc(st.ast), f'`{norm(st.ast.value)[:50]}` does not depend on `{first}`: the metadata says what is wrong but not for which triple (or the other way round)')
         elif first:
             rep.ok(k6, fi.loc(st.ast))
@@ -997,6 +1022,21 @@ def r102(ctx: Ctx) -> RuleReport:
         key = f'penman.__main__: option {main_flag}'
         found = [(f, n, fl, ex) for f, n, fl, ex in calls if main_flag in fl]
         if not found:
+            if _diagnostic_only(ctx, main, arg):
+                dest = ast.literal_eval(arg['kwargs']['dest']) if 'dest' in arg['kwargs'] else main_flag.lstrip('-').replace('-', '_')
+                dests = set()
+                for f_, n_, fl_, _ in calls:
+                    kd = [k.value for k in n_.keywords if k.arg == 'dest']
+                    okd_, dv_ = try_fold(kd[0], {}, ctx.repo, f_.module) if kd else (False, None)
+                    if okd_:
+                        dests.add(dv_)
+                    longf = [x for x in fl_ if x.startswith('--')] or fl_
+                    if longf and not kd:
+                        dests.add(longf[0].lstrip('-').replace('-', '_'))
+                if arg['kwargs'].get('action') == "'version'" or dest in dests:
+                    rep.add(key, main.loc(), 'info', f'the spelling {main_flag} is gone (diagnostic option: its value only sets the log level / prints the version, '
+                                                     f'no property depends on it)')
+                    continue
             rep.violation(key, main.loc(), f'the documented option {main_flag} is not defined by any add_argument call: the tool rejects a documented invocation')
             continue
         if len(found) > 1:
@@ -1038,11 +1078,41 @@ def r102(ctx: Ctx) -> RuleReport:
                 problems.append(f'new {k}={norm(got[k])[:30]}')
         if bool(arg.get('exclusive')) != bool(ex):
             problems.append('it is ' + ('no longer' if arg.get('exclusive') else 'now') + ' in the mutually exclusive model group')
-        if problems:
+        if problems and _diagnostic_only(ctx, main, arg):
+            # the properties quantify over normalisation, formatting, model and input options; an option whose value only reaches
+            # the logger (or argparse's own version action) cannot change what is written to the output
+            rep.add(key, f.loc(n), 'info', '; '.join(problems) + ' (diagnostic option: its value only sets the log level / prints the version, no property depends on it)')
+        elif problems:
             rep.violation(key, f.loc(n), '; '.join(problems) + ': the command line accepts / interprets this option differently from what is documented')
         else:
             rep.ok(key, f.loc(n))
     return rep
+
+
+def _diagnostic_only(ctx, main, arg) -> bool:
+    kw = arg['kwargs']
+    if kw.get('action') == "'version'":
+        return True
+    main_flag = max(arg['flags'], key=len)
+    dest = ast.literal_eval(kw['dest']) if 'dest' in kw else main_flag.lstrip('-').replace('-', '_')
+    pm = {}
+    for p_ in ast.walk(main.node):
+        for c in ast.iter_child_nodes(p_):
+            pm[id(c)] = p_
+    reads = [n for n in walk_local(main.node) if isinstance(n, ast.Attribute) and n.attr == dest and isinstance(n.ctx, ast.Load)]
+    if not reads:
+        return False
+    for r in reads:
+        st = r
+        while not isinstance(st, ast.stmt):
+            st = pm[id(st)]
+        if isinstance(st, ast.Assign) and len(st.targets) == 1 and isinstance(st.targets[0], ast.Attribute) and st.targets[0].attr == dest:
+            continue                                    # re-normalising the value itself
+        if isinstance(st, ast.Expr) and isinstance(st.value, ast.Call) and isinstance(st.value.func, ast.Attribute) \
+                and st.value.func.attr in ('setLevel', 'basicConfig'):
+            continue
+        return False
+    return True
 
 
 # ---------------------------------------------------------------------------------------------
@@ -1318,3 +1388,158 @@ def _ancestors_of(pm, n):
         n = pm[id(n)]
         out.append(n)
     return out
+
+
+# ---------------------------------------------------------------------------------------------
+@rule('R115', 'the model check runs before anything is derived from the graph for output: what _check writes into the metadata is part of what is printed')
+def r115(ctx: Ctx) -> RuleReport:
+    rep = RuleReport('R115', r115.title, floor=1)
+    fi = ctx.repo.func('penman.__main__', 'process')
+    cfg = CFG(fi.node)
+    pm = ctx.repo.parent_map(fi.node)
+    checks = [c for c, ts in ctx.cg.calls_in(fi) if any(t.kind == 'func' and t.func.qualname == '_check' for t in ts)]
+    if not checks:
+        rep.undecided(f'{fi.fq}: _check is called', fi.loc(), 'no call of _check in process (a helper may make it)')
+        return rep
+    for ck in checks:
+        if not ck.args or not isinstance(ck.args[0], ast.Name):
+            rep.undecided(f'{fi.fq}: `{norm(ck)[:40]}` checks a graph held in a local', fi.loc(ck))
+            continue
+        g = ck.args[0].id
+        cn = owner_node(cfg, pm, ck)
+        loop = next((a for a in _ancestors_of(pm, ck) if isinstance(a, (ast.For, ast.While))), None)
+        stop = {cfg.node_of(loop)} if loop is not None else set()
+        key = f'{fi.fq}: nothing is derived from `{g}` for output before `{norm(ck)[:40]}`'
+        bad = None
+        for c, ts in ctx.cg.calls_in(fi):
+            if c is ck:
+                continue
+            uses_g = any(isinstance(a, ast.Name) and a.id == g for a in list(c.args) + [k.value for k in c.keywords]) or \
+                (isinstance(c.func, ast.Attribute) and isinstance(c.func.value, ast.Name) and c.func.value.id == g)
+            # attribute reads such as g.triples passed to a formatter are evaluated at the call, after the check or before it alike
+            if not uses_g and any(isinstance(a, ast.Attribute) and isinstance(a.value, ast.Name) and a.value.id == g for a in c.args):
+                uses_g = True
+            if not uses_g:
+                continue
+            if isinstance(pm.get(id(c)), ast.Expr):
+                continue                        # result discarded (logging and the like): nothing is derived for output
+            # the producer of g itself (g = f(...)) does not take g
+            kn = owner_node(cfg, pm, c)
+            if kn == cn:
+                continue
+            path = cfg.path_avoiding([(kn, None)], {cn}, lambda nd: nd.id in stop)
+            if path:
+                bad = (c, path)
+                break
+        if bad:
+            c, path = bad
+            rep.violation(key, fi.loc(c), f'`{norm(c)[:60]}` runs before the check in the same iteration: the object it returns is built from the graph as it was '
+                          f'before _check stored its error-N entries (a Tree keeps the metadata mapping it is given only if that is non-empty, reconfigure '
+                          f'copies it), so for a graph without metadata of its own the offending triples are missing from the output while the exit status is 1')
+        else:
+            rep.ok(key, fi.loc(ck), 'every other use of the graph in the iteration comes after the check')
+    return rep
+
+
+# ---------------------------------------------------------------------------------------------
+@rule('R121', 'the documented sort-key names select the documented ordering: each name maps to the model method or the layout flag of the specification')
+def r121(ctx: Ctx) -> RuleReport:
+    from ..resolve import fold_in
+    rep = RuleReport('R121', r121.title, floor=2)
+    spec = json.loads((SPEC / 'cli.json').read_text()).get('key_tables')
+    if not spec:
+        raise AnalysisError('R121: spec/cli.json has no key_tables')
+    main = ctx.repo.func('penman.__main__', 'main')
+    model_cls = ctx.repo.cls('penman.model', 'Model')
+    consumers = {'rearrange': ctx.repo.func('penman.layout', 'rearrange'), 'reconfigure': ctx.repo.func('penman.layout', 'reconfigure')}
+    found = {}
+    for call, ts in ctx.cg.calls_in(main):
+        if any(t.kind == 'func' and t.func.qualname == '_make_sort_key' for t in ts) and len(call.args) >= 3:
+            src = norm(call.args[0])
+            which = 'REARRANGE_KEYS' if 'rearrange' in src else ('RECONFIGURE_KEYS' if 'reconfigure' in src else None)
+            if which is None:
+                rep.undecided(f'penman.__main__:main: `{norm(call)[:50]}`', main.loc(call), 'the option this key list belongs to is not recognised')
+                continue
+            okf, tab = fold_in(ctx, main, call.args[2])
+            if not okf or not isinstance(tab, dict):
+                rep.undecided(f'penman.__main__:main: key table of --{which.split("_")[0].lower()}', main.loc(call), f'`{norm(call.args[2])}` does not fold to a dict')
+                continue
+            found[which] = (call, tab)
+    for which, want in sorted(spec.items()):
+        opt = which.split('_')[0].lower()
+        key = f'penman.__main__: key names of --{opt}'
+        if which not in found:
+            if not any(i.key.startswith('penman.__main__:main:') for i in rep.instances):
+                rep.undecided(key, main.loc(), 'no _make_sort_key call for this option')
+            continue
+        call, tab = found[which]
+        problems = []
+        for k in want:
+            if k not in tab:
+                problems.append(f'the documented key {k!r} is gone')
+            elif tab[k] != want[k]:
+                problems.append(f'{k!r} selects {tab[k]!r}, documented {want[k]!r}')
+        for k in tab:
+            if k not in want:
+                v = tab[k]
+                known = model_cls.find_method(v) is not None or v in consumers[opt].params
+                if not known:
+                    problems.append(f'new key {k!r} names {v!r}, which is neither a method of Model nor a parameter of layout.{opt}')
+        # each value must exist: a Model method, or a keyword of the layout function that receives **kwargs
+        for k, v in tab.items():
+            if k in want and tab[k] == want[k] and model_cls.find_method(v) is None and v not in consumers[opt].params:
+                problems.append(f'{k!r} names {v!r}, which is neither a method of Model nor a parameter of layout.{opt}')
+        if problems:
+            rep.violation(key, main.loc(call), '; '.join(problems) + f': `--{opt} <key>` is rejected or orders the output differently from what is documented')
+        else:
+            rep.ok(key, main.loc(call), f'{sorted(tab)}')
+    return rep
+
+
+# ---------------------------------------------------------------------------------------------
+@rule('R122', 'every value the tool takes out of its option tables is used: no option the user chose is read and then dropped')
+def r122(ctx: Ctx) -> RuleReport:
+    from ..cfg import reaching_defs
+    rep = RuleReport('R122', r122.title, floor=3)
+    m = ctx.repo.module('penman.__main__')
+    srcs = ('normalize_options', 'format_options', 'args')
+    for fi in m.all_funcs:
+        cfg = CFG(fi.node)
+        rd = reaching_defs(cfg, fi.params)
+        # nodes that read each name
+        readers: Dict[str, List[int]] = {}
+        for nd in cfg.nodes:
+            if nd.ast is None:
+                continue
+            exprs = [nd.ast]
+            if nd.kind == 'for':
+                exprs = [nd.ast.iter]
+            elif nd.kind == 'stmt' and isinstance(nd.ast, (ast.If, ast.While, ast.For, ast.With, ast.Try)):
+                exprs = []
+            for e in exprs:
+                for x in ast.walk(e):
+                    if isinstance(x, ast.Name) and isinstance(x.ctx, ast.Load):
+                        readers.setdefault(x.id, []).append(nd.id)
+        nested_reads = {x.id for f2 in m.all_funcs if f2.parent is fi for x in ast.walk(f2.node) if isinstance(x, ast.Name) and isinstance(x.ctx, ast.Load)}
+        for nd in cfg.nodes:
+            if nd.kind != 'stmt' or not isinstance(nd.ast, ast.Assign):
+                continue
+            v = nd.ast.value
+            root_names = {x.id for x in ast.walk(v) if isinstance(x, ast.Name)}
+            if not (root_names & set(srcs)):
+                continue
+            if not any(isinstance(x, (ast.Subscript, ast.Attribute)) or (isinstance(x, ast.Call) and isinstance(x.func, ast.Attribute) and x.func.attr == 'get')
+                       for x in ast.walk(v)):
+                continue
+            bound = [x.id for t in nd.ast.targets for x in ast.walk(t) if isinstance(x, ast.Name) and isinstance(x.ctx, ast.Store)]
+            for nm in bound:
+                if nm.startswith('_'):
+                    continue
+                key = f'{fi.fq}: `{nm}` from `{norm(v)[:40]}` is used'
+                used = nm in nested_reads or any(nd.id in rd.get(u, {}).get(nm, frozenset()) for u in readers.get(nm, []))
+                if used:
+                    rep.ok(key, fi.loc(nd.ast))
+                else:
+                    rep.violation(key, fi.loc(nd.ast), f'`{nm}` is taken out of the options here and never read before it is re-bound or the function ends: the call that should '
+                                  f'receive it runs with its default instead, so the option has no effect on the output')
+    return rep
